@@ -624,6 +624,9 @@ def selftest(h, params, ctx0, seed, n=8):
                 out["violations"].append(dict(obligation=name, inputs=vals, observed=repr(detail),
                                               found_by="plain-number self-test"))
             continue
+        if ctx0.func_decls:
+            # uninterpreted functions are not pinned: nothing could be compared, skip the (expensive) pinned run
+            continue
         # pinned symbolic run
         pins = dict(vals)
         sym = run_once(h, params, mode="sym", pins=pins, timeout_ms=10000)
